@@ -202,7 +202,7 @@ def correspond_heuristic(res, drv, case, form, rnd_label):
         if impl != "ok":
             return
         g = VU.graph_of(o)
-        if (g["nodes"], sorted(g["arcs"])) != (m["g"]["nodes"], sorted(m["g"]["arcs"])):
+        if VU.canon_graph(g) != VU.canon_graph(m["g"]):
             a, b = g["arcs"], m["g"]["arcs"]
             res.disagree(f"{form} graph after the heuristic", ([x for x in a if x not in b][:3], [n for n in g["nodes"] if n not in m["g"]["nodes"]][:2]),
                          ([x for x in b if x not in a][:3], [n for n in m["g"]["nodes"] if n not in g["nodes"]][:2]))
@@ -259,7 +259,7 @@ def getters_case(res, drv, case):
         tk = MU.Toks(groups[2])
         mv, ml = tk.nat(), tk.nat()
         mg = MU.parse_graph(tk)
-        if iseq is None or (iseq[0], iseq[1]) != (mv, ml) or (iseq[2]["nodes"], iseq[2]["arcs"]) != (mg["nodes"], mg["arcs"]):
+        if iseq is None or (iseq[0], iseq[1]) != (mv, ml) or VU.canon_graph(iseq[2]) != VU.canon_graph(mg):
             res.disagree("get_sequence_based (V, L, graph)", None if iseq is None else iseq[:2], (mv, ml))
     # --- path-based: pool under a scripted sampler
     from vrpqubo.routing_problem.formulations import path_based_rp as pbm
